@@ -309,6 +309,12 @@ def jobs_C16(tier):
     # colcnt_h[j] >= exact Cholesky column count of Pc(A+A')Pc' for every column, part_super_h fundamental, etree exact
     for n in (1, 2, 3, 4, 5):
         j.append({'engine': 'mcsym/mcsym.c', 'variant': 'q', 'prec': 'd', 'args': ['--prop', 'C16', '--n', str(n)]})
+    # ... and every full-diagonal pattern, unsymmetric ones included (added after seeded change C16/3): n <= 4 (quick), 5 (thorough)
+    for n in (2, 3, 4):
+        j.append({'engine': 'mcsym/mcsym.c', 'variant': 'q', 'prec': 'd', 'args': ['--prop', 'C16', '--n', str(n), '--unsym', '1']})
+    if tier != 'quick':
+        for i in range(16):
+            j.append({'engine': 'mcsym/mcsym.c', 'variant': 'qf', 'prec': 'd', 'opt': '-O2', 'args': ['--prop', 'C16', '--n', '5', '--unsym', '1', '--slice', '%d/16' % i]})
     ns6 = 4 if tier == 'quick' else 1
     for i in range(ns6):
         j.append({'engine': 'mcsym/mcsym.c', 'variant': 'q', 'prec': 'd', 'args': ['--prop', 'C16', '--n', '6', '--slice', '%d/%d' % (i, ns6)]})
